@@ -46,6 +46,7 @@ type Plan struct {
 	CBFail      string         `json:"callback_fail,omitempty"`        // "panic": it panics, the client recovers and goes on using the cache; "goexit": it ends its goroutine (what t.FailNow does), the others go on; "reregister": it registers itself again through SetDelCallBackFn (a one-shot or self-replacing callback)
 	TypedVals   bool           `json:"typed_values,omitempty"`         // stored values are strings, Stringers, errors and Formatters with the same text (C10n formatted some of them outside the lock)
 	Bystander   int            `json:"bystander_ops,omitempty"`        // > 0: a second, independent cache instance is used at the same time (that many operations)
+	Prefill     int            `json:"prefill,omitempty"`              // small shape: keys k0..k(n-1) are stored sequentially (values p0..) before the clients start
 	Clients     [][]Op         `json:"clients"`
 	Cfg         simsync.Config `json:"cfg"`
 }
@@ -359,6 +360,16 @@ func genC10(r *detsim.Rand, tier string, forceShape string) *Plan {
 		m, lbs := genMix(r, true)
 		if r.Chance(1, 3) {
 			m.dump = 3
+		}
+		if r.Chance(1, 5) {
+			// recency under concurrency: a FULL cache of 2..5 entries (prefilled, one key more than it holds), clients that mostly
+			// load - several hits on different entries that are not at the front overlap - and now and then dump or store the
+			// one new key: the order the hits left behind shows in the Dump / in the victim of the overflow (seeded C10u lost
+			// one of two overlapping promotions)
+			p.Cap = 2 + r.Intn(4)
+			p.NKeys = p.Cap + 1
+			p.Prefill = p.Cap
+			m, lbs = mix{store: 1, load: 6, ln: 1, dump: 2}, false
 		}
 		tot := 0
 		for c := 0; c < nc; c++ {
